@@ -3,7 +3,7 @@ import hashlib
 from props.common import *   # noqa
 from props import spell
 
-MINE = {"result-class", "model:bind", "model:obj", "store-state:tmp-residue", "store-state:object-bytes-changed",
+MINE = {"instance-state", "result-class", "model:bind", "model:obj", "store-state:tmp-residue", "store-state:object-bytes-changed",
         "bookkeeping-not-exact", "referenced-object-removed", "returned-value", "store-state:delete-marker-residue"}
 
 
@@ -13,7 +13,11 @@ def variants(content, canon, tier, allpos=False):
     out = [("lower-case", true, True), ("upper-case", true.upper(), True),
            ("mixed-case", "".join(ch.upper() if i % 2 else ch for i, ch in enumerate(true)), True),
            ("digest of another algorithm", other, other.lower() == true),
-           ("truncated", true[:-1], False)]
+           ("truncated", true[:-1], False),
+           # characters that are neither hex digits nor whitespace do not disappear from a checksum
+           ("byte-order mark in front", "\ufeff" + true, False),
+           ("zero-width space inside", true[:7] + "\u200b" + true[7:], False),
+           ("accented letter appended", true + "\u00e9", False)]
     positions = range(len(true)) if allpos else (0, len(true) // 2, len(true) - 1)
     for pos in positions:
         ch = "0" if true[pos] != "0" else "1"
